@@ -74,14 +74,18 @@ def quote(name: str) -> str:
 class Tr(ast.NodeVisitor):
     """Python arithmetic expression -> Lean term over a scalar type; leaves become parameters."""
 
-    def __init__(self, src: str, inline=None, calls=None):
+    def __init__(self, src: str, inline=None, calls=None, opaque=None):
         self.src = src
         self.leaves = []
         self.inline = inline or {}
         self.calls = calls or {}
+        self.opaque = {re.sub(r"\s+", "", k): v for k, v in (opaque or {}).items()}
+        self.env = None  # symbolic store of the block translator (variable -> Lean term); None for plain expressions
 
     def leaf(self, node):
         name = sanitize(ast.get_source_segment(self.src, node))
+        if self.env is not None and name in self.env:
+            return self.env[name]
         if name in self.inline:
             return "(" + self.inline[name] + ")"
         if name not in self.leaves:
@@ -89,6 +93,16 @@ class Tr(ast.NodeVisitor):
         return quote(name)
 
     def tr(self, n) -> str:
+        if self.opaque:
+            txt = re.sub(r"\s+", "", ast.unparse(n))
+            if txt in self.opaque:
+                # an expression the translator does not interpret (a None test, an external predicate): named leaf
+                name = self.opaque[txt]
+                if name not in self.leaves:
+                    self.leaves.append(name)
+                return quote(name)
+        if isinstance(n, ast.Constant) and isinstance(n.value, bool):
+            return "true" if n.value else "false"
         if isinstance(n, ast.BinOp):
             a, b = self.tr(n.left), self.tr(n.right)
             op = {ast.Add: "+", ast.Sub: "-", ast.Mult: "*", ast.Div: "/", ast.FloorDiv: "/", ast.Mod: "%"}.get(type(n.op))
@@ -108,6 +122,10 @@ class Tr(ast.NodeVisitor):
             return self.leaf(n)
         if isinstance(n, ast.Call):
             fn = ast.get_source_segment(self.src, n.func)
+            if isinstance(n.func, ast.Attribute) and n.func.attr in ("astype", "item", "copy", "clone", "float", "flatten", "detach") \
+                    and ("." + n.func.attr) not in self.calls and fn not in self.calls:
+                # dtype conversions / copies do not change the mathematical value (arguments are not translated)
+                return self.tr(n.func.value)
             args = [self.tr(a) for a in n.args]
             if fn in self.calls:
                 # per-item mapping of a library call to a Lean function, e.g. {"np.sqrt": "HasSqrt.sqrt"}
@@ -195,13 +213,255 @@ def find_expr(fn, target, occurrence):
     return hits[occurrence]
 
 
+# ---------------------------------------------------------------------------------------------------------------------
+# statement-level translation: a block of statements -> its effect on the variables it assigns (symbolic execution)
+class BlockTr:
+    """
+    Symbolic execution of a straight-line / branching block of Python statements (assignments to names, `self.attr`
+    and subscripts, augmented assignments, tuple assignments, if/elif/else, return, calls with side effects named in
+    `effects`) into one Lean term per output variable. A variable that is read before the block assigns it is a leaf
+    (a parameter of the generated definition: its value on entry); a read after an assignment sees the assigned term, so
+    the ORDER of the statements, stale reads and early returns are part of what is extracted. Loops are not executed:
+    select a loop body with "block": "for:K" / "while:K" and model one iteration.
+    """
+
+    def __init__(self, src, item):
+        self.src = src
+        self.item = item
+        self.tr = Tr(src, item.get("inline"), item.get("calls"), item.get("opaque"))
+        self.tr.env = {}
+        self.effects = item.get("effects", {})
+        self.skip = [re.sub(r"\s+", "", k) for k in item.get("skip", [])]
+        self.havoc = [re.sub(r"\s+", "", k) for k in item.get("havoc", [])]
+        self.bool_leaves = set()
+
+    def name_of(self, target):
+        return sanitize(ast.get_source_segment(self.src, target))
+
+    def cur(self, env, name):
+        """current symbolic value of a variable (its entry value is a leaf)"""
+        if name in env:
+            return env[name]
+        if name.startswith("eff_"):
+            return "false"
+        if name == "ret":
+            return self.item.get("no_return", "true")
+        if name not in self.tr.leaves:
+            self.tr.leaves.append(name)
+        return quote(name)
+
+    def expr(self, env, node):
+        self.tr.env = env
+        return self.tr.tr(node)
+
+    def skipped(self, s):
+        """statements without an effect on the modelled state: pass / assert / docstrings, simple statements matching a
+        `skip` needle (logging, printing), and an `if` all of whose statements are skipped"""
+        if isinstance(s, (ast.Pass, ast.Assert)) or (isinstance(s, ast.Expr) and isinstance(s.value, ast.Constant)):
+            return True
+        if isinstance(s, ast.If):
+            return all(self.skipped(b) for b in list(s.body) + list(s.orelse))
+        if isinstance(s, (ast.For, ast.While, ast.With, ast.Try)):
+            return False
+        text = re.sub(r"\s+", "", ast.unparse(s))
+        return any(k in text for k in self.skip)
+
+    @staticmethod
+    def may_return(stmts):
+        return any(isinstance(n, ast.Return) for s in stmts for n in ast.walk(s))
+
+    def assign(self, env, target, term):
+        if isinstance(target, (ast.Name, ast.Attribute, ast.Subscript)):
+            env[self.name_of(target)] = term
+        else:
+            raise Unsupported("assignment target " + type(target).__name__)
+
+    def targets_of(self, s):
+        ts = s.targets if isinstance(s, ast.Assign) else [s.target]
+        out = []
+        for t in ts:
+            out += list(t.elts) if isinstance(t, ast.Tuple) else [t]
+        return out
+
+    def run(self, stmts, env):
+        if not stmts:
+            return env
+        s, rest = stmts[0], stmts[1:]
+        if self.item.get("lenient") and isinstance(s, (ast.Assign, ast.AugAssign, ast.AnnAssign, ast.Expr)):
+            # lenient mode (long training loops): a simple statement the translator cannot express (tensor code) makes
+            # the variables it assigns unknown (fresh leaves `<name>_new`) and is otherwise ignored; control flow,
+            # counters and listed effects are still executed symbolically, in order
+            saved_leaves = list(self.tr.leaves)
+            try:
+                return self.run1(s, rest, dict(env))
+            except Unsupported:
+                if isinstance(s, ast.Expr):
+                    fn = re.sub(r"\s+", "", ast.unparse(s.value.func)) if isinstance(s.value, ast.Call) else ""
+                    if any(fn == k or fn.endswith("." + k) for k in self.effects):
+                        raise
+                    self.tr.leaves[:] = saved_leaves
+                    return self.run(rest, env)
+                self.tr.leaves[:] = saved_leaves
+                for e in self.targets_of(s):
+                    if isinstance(e, (ast.Name, ast.Attribute, ast.Subscript)):
+                        nm = self.name_of(e)
+                        env.pop(nm, None)
+                        env[nm] = self.cur({}, nm + "_new")
+                return self.run(rest, env)
+        return self.run1(s, rest, env)
+
+    def run1(self, s, rest, env):
+        text = re.sub(r"\s+", "", ast.unparse(s))
+        if self.skipped(s):
+            return self.run(rest, env)
+        if isinstance(s, ast.With):
+            # context managers (th.no_grad(), …) do not change values: the body runs in place
+            return self.run(list(s.body) + rest, env)
+        if isinstance(s, ast.Return):
+            env["ret"] = self.expr(env, s.value) if s.value is not None else "()"
+            return env
+        if isinstance(s, ast.If):
+            saved_leaves = list(self.tr.leaves)
+            try:
+                c = self.expr(env, s.test)
+            except Unsupported:
+                if not self.item.get("lenient"):
+                    raise
+                # a test the translator cannot express: an unknown Boolean (it reaches an output only if the two
+                # branches differ on a tracked variable)
+                self.tr.leaves[:] = saved_leaves
+                self.n_cond = getattr(self, "n_cond", 0) + 1
+                c = self.cur({}, f"cond{self.n_cond}")
+                self.bool_leaves.add(f"cond{self.n_cond}")
+            if self.may_return(s.body) or self.may_return(s.orelse):
+                et = self.run(list(s.body) + rest, dict(env))
+                ef = self.run(list(s.orelse) + rest, dict(env))
+                return self.merge(c, et, ef)
+            et = self.run(list(s.body), dict(env))
+            ef = self.run(list(s.orelse), dict(env))
+            return self.run(rest, self.merge(c, et, ef))
+        if isinstance(s, ast.Assign):
+            if any(k in text for k in self.havoc):
+                # result of an external call: the targets become fresh leaves (their value after the call)
+                for t in s.targets:
+                    for e in (t.elts if isinstance(t, ast.Tuple) else [t]):
+                        nm = self.name_of(e)
+                        env.pop(nm, None)
+                        env[nm] = self.cur({}, nm + "_new")
+                return self.run(rest, env)
+            for t in s.targets:
+                if isinstance(t, ast.Tuple):
+                    if not (isinstance(s.value, ast.Tuple) and len(s.value.elts) == len(t.elts)):
+                        raise Unsupported("tuple assignment from a non-tuple: " + ast.unparse(s)[:60])
+                    vals = [self.expr(env, v) for v in s.value.elts]
+                    for e, v in zip(t.elts, vals):
+                        self.assign(env, e, v)
+                else:
+                    self.assign(env, t, self.expr(env, s.value))
+            return self.run(rest, env)
+        if isinstance(s, ast.AugAssign):
+            op = {ast.Add: "+", ast.Sub: "-", ast.Mult: "*", ast.Div: "/", ast.FloorDiv: "/", ast.Mod: "%"}.get(type(s.op))
+            if op is None:
+                raise Unsupported("augmented assignment " + type(s.op).__name__)
+            old = self.expr(env, s.target)
+            self.assign(env, s.target, f"({old} {op} {self.expr(env, s.value)})")
+            return self.run(rest, env)
+        if isinstance(s, ast.AnnAssign) and s.value is not None:
+            self.assign(env, s.target, self.expr(env, s.value))
+            return self.run(rest, env)
+        if isinstance(s, ast.Expr) and isinstance(s.value, ast.Call):
+            fn = re.sub(r"\s+", "", ast.unparse(s.value.func))
+            for k, v in self.effects.items():
+                if fn == k or fn.endswith("." + k):
+                    env["eff_" + v] = "true"
+                    return self.run(rest, env)
+            raise Unsupported("statement with an unlisted side effect: " + ast.unparse(s)[:80])
+        raise Unsupported("statement " + type(s).__name__ + ": " + ast.unparse(s)[:60])
+
+    def merge(self, c, et, ef):
+        out = {}
+        for k in list(dict.fromkeys(list(et) + list(ef))):
+            a, b = self.cur(et, k), self.cur(ef, k)
+            out[k] = a if a == b else f"(if {c} then {a} else {b})"
+        return out
+
+
+def select_block(fn, sel):
+    if sel in (None, "body"):
+        return list(fn.body)
+    kind, _, k = sel.partition(":")
+    cls = {"for": ast.For, "while": ast.While, "with": ast.With, "if": ast.If, "else": ast.If}.get(kind)
+    if cls is None:
+        raise Unsupported("block selector " + sel)
+    hits = sorted((n for n in ast.walk(fn) if isinstance(n, cls)), key=lambda v: (v.lineno, v.col_offset))
+    if int(k or 0) >= len(hits):
+        raise Unsupported(f"{sel}: no such loop")
+    return list(hits[int(k or 0)].orelse if kind == "else" else hits[int(k or 0)].body)
+
+
+def extract_block(item):
+    """kind == "block": see BlockTr. Spec fields: block ("body" | "for:K" | "while:K" | "with:K"), start / stop (source needles:
+    first statement containing `start` … up to, not including, the first later statement containing `stop`),
+    outputs [{"var": name, "type": T}] (name: sanitized variable, "ret" for the return value, "eff_X" for an effect),
+    leaf_types {leaf: T}, type (default leaf type, else α), skip [needles], havoc [needles], effects {callee: X},
+    opaque {python expression: leaf}, no_return (Lean term for `ret` on a path that falls off the end)."""
+    path = os.path.join(REPO, item["file"])
+    src = open(path).read()
+    tree = ast.parse(src)
+    fn = find_func(tree, item.get("class"), item["func"])
+    stmts = select_block(fn, item.get("block"))
+    norm = lambda s: re.sub(r"\s+", "", ast.unparse(s))
+    if item.get("start"):
+        k = next((i for i, s in enumerate(stmts) if re.sub(r"\s+", "", item["start"]) in norm(s)), None)
+        if k is None:
+            raise Unsupported(f"{item['name']}: start statement not found")
+        stmts = stmts[k:]
+    if item.get("stop"):
+        k = next((i for i, s in enumerate(stmts) if i > 0 and re.sub(r"\s+", "", item["stop"]) in norm(s)), None)
+        if k is None:
+            raise Unsupported(f"{item['name']}: stop statement not found")
+        stmts = stmts[:k]
+    bt = BlockTr(src, item)
+    env = bt.run(stmts, {})
+    outs = []
+    for o in item["outputs"]:
+        if o["var"] not in env and not o.get("optional"):
+            raise Unsupported(f"{item['name']}: block does not assign {o['var']}")
+        outs.append(bt.cur(env, o["var"]))
+    extra = sorted(k for k in env if k not in {o["var"] for o in item["outputs"]} and k not in item.get("locals", []))
+    if extra and item.get("strict", True):
+        # a NEW assigned variable = the code was restructured (or grew a new piece of state)
+        raise Unsupported(f"{item['name']}: block assigns unexpected variables {extra}")
+    # leaves that occur in the output terms (a local of one branch merged with "unassigned" never reaches an output)
+    occurs = lambda l: any(re.search(r"(?<![\w«.])" + re.escape(l) + r"(?![\w»])", o) for o in outs)
+    leaves = sorted(l for l in bt.tr.leaves if occurs(l))
+    if "leaves" in item and sorted(item["leaves"]) != leaves:
+        if not (item.get("leaves_mode") == "subset" and set(leaves) <= set(item["leaves"])):
+            raise Unsupported(f"{item['name']}: leaves {leaves} differ from expected {sorted(item['leaves'])}")
+        leaves = sorted(item["leaves"])
+    dty = item.get("type")
+    lt = dict({b: "Bool" for b in bt.bool_leaves}, **item.get("leaf_types", {}))
+    binders = " ".join(f"({quote(l)} : {lt.get(l, dty or 'α')})" for l in leaves)
+    rty = " × ".join(o["type"] for o in item["outputs"])
+    generic = (dty is None) and (any(l not in lt for l in leaves) or any(o["type"] == "α" for o in item["outputs"]))
+    head = f"def {item['name']} "
+    if generic:
+        head += "{α : Type} " + item.get("classes", "[Add α] [Sub α] [Mul α] [Div α] [Neg α] [OfNat α 0] [OfNat α 1] [OfNat α 2]") + " "
+    body = outs[0] if len(outs) == 1 else "(" + ",\n   ".join(outs) + ")"
+    text = f"{head}{binders} : {rty} :=\n  {body}"
+    return text, {"name": item["name"], "kind": "block", "statements": len(stmts), "lean": body, "leaves": leaves,
+                  "where": f"{item['file']}:{stmts[0].lineno}-{stmts[-1].end_lineno}" if stmts else item["file"]}
+
+
 def extract_item(item):
+    if item.get("kind") == "block":
+        return extract_block(item)
     path = os.path.join(REPO, item["file"])
     src = open(path).read()
     tree = ast.parse(src)
     fn = find_func(tree, item.get("class"), item["func"])
     expr = find_expr(fn, item["target"], item.get("occurrence", 0))
-    tr = Tr(src, item.get("inline"), item.get("calls"))
+    tr = Tr(src, item.get("inline"), item.get("calls"), item.get("opaque"))
     term = tr.tr(expr)
     leaves = sorted(tr.leaves)
     if "leaves" in item:
